@@ -321,26 +321,51 @@ func checkPredClauses(p *core.Prog, r *core.Report, rule string, clauses []predC
 			r.Unk(rule, key, "-", "function not found")
 			continue
 		}
-		var sites []*ssa.Call
-		core.EachInstr(f, func(i ssa.Instruction) {
-			if c, ok := i.(*ssa.Call); ok {
-				if g := core.StaticCallee(c); g != nil && g.Name() == cl.msg {
-					sites = append(sites, c)
-				}
+		// the message may be produced in the rule function itself or in a helper it calls (extracted method):
+		// the control conditions of the call chain are then part of what controls the message
+		type msgSite struct {
+			call  *ssa.Call
+			outer []string // control atoms of the call sites on the way from the rule function
+		}
+		var sites []msgSite
+		var search func(g *ssa.Function, outer []string, depth int, seen map[*ssa.Function]bool)
+		search = func(g *ssa.Function, outer []string, depth int, seen map[*ssa.Function]bool) {
+			if depth > 3 || seen[g] {
+				return
 			}
-		})
+			seen[g] = true
+			core.EachInstr(g, func(i ssa.Instruction) {
+				c, ok := i.(*ssa.Call)
+				if !ok {
+					return
+				}
+				h := core.StaticCallee(c)
+				if h == nil {
+					return
+				}
+				if h.Name() == cl.msg {
+					sites = append(sites, msgSite{c, outer})
+					return
+				}
+				if p.InSubject(h) && len(h.Blocks) > 0 && h.Signature.Recv() != nil && f.Signature.Recv() != nil && core.NamedOf(h.Signature.Recv().Type()) == core.NamedOf(f.Signature.Recv().Type()) {
+					search(h, append(append([]string{}, outer...), controlAtoms(c.Block())...), depth+1, seen)
+				}
+			})
+		}
+		search(f, nil, 0, map[*ssa.Function]bool{})
 		if len(sites) == 0 {
 			r.Bad(rule, key, p.Pos(f.Pos()), "the message of this rule is no longer produced here: "+cl.explain)
 			continue
 		}
-		for _, s := range sites {
+		for _, ms := range sites {
+			s := ms.call
 			n++
 			if fl := stickyFlagOf(s.Block()); fl != nil {
 				r.Bad(rule, key+":per-element-flag", p.Pos(s.Pos()), fmt.Sprintf("%s: the message is decided per element of a loop by a flag (%s) that is not reset for each element — once it has been set for one element it stays set for all later ones, so their violations are no longer reported", cl.explain, fl.Comment))
 			} else {
 				r.OK(rule, key+":per-element-flag", p.Pos(s.Pos()), "no flag controlling this message is carried over from one element of the enclosing loop to the next")
 			}
-			atoms := controlAtoms(s.Block())
+			atoms := uniq(append(append([]string{}, ms.outer...), controlAtoms(s.Block())...))
 			joined := strings.Join(atoms, " ; ")
 			var missing, wrong []string
 			for _, need := range cl.need {
